@@ -178,7 +178,8 @@ def endpoint(repo, chk, on_write):
     dead_w = pat.test_edge(lambda tt, pol: len(wh.params) > 2 and any(pat.fact_matches(pat.compare_fact(tt, pol), wh.params[1], ('in',), ds) for ds in dead_sets))
     alive_w = pat.test_edge(lambda tt, pol: len(wh.params) > 2 and any(pat.fact_matches(pat.compare_fact(tt, pol), wh.params[1], ('not in',), ds) for ds in dead_sets))
     gone_w0 = gone_w
-    gone_w = lambda e2: gone_w0(e2) or dead_w(e2)  # noqa: E731
+    closed_w = pat.test_edge(lambda tt, pol: is_file and ((pol == 'T' and src(tt) in ('self.closed', 'self._fd.closed')) or (pol == 'F' and src(tt) in ('not self.closed',))))
+    gone_w = lambda e2: gone_w0(e2) or dead_w(e2) or closed_w(e2)  # noqa: E731
     if dead_sets:
         for a_ in app:
             q = pat.guarded_by(gw, a_, alive_w)
@@ -198,12 +199,21 @@ def endpoint(repo, chk, on_write):
     p = Q.escapes(gw, [gw.entry], lambda n: n in addw, avoid_edge=pat.test_edge(
         lambda tt, pol: (pol == 'T' and 'isWriting' in src(tt)) or (is_file and pat.fact_matches(pat.compare_fact(tt, pol), 'self._poller', ('is', '=='), 'None'))
         or (is_file and pat.fact_matches(pat.compare_fact(tt, pol), 'self._fd', ('is', '=='), 'None'))
+        or (is_file and pol == 'T' and src(tt) in ('self.closed', 'self._fd.closed'))
         or (len(wh.params) > 2 and pat.fact_matches(pat.compare_fact(tt, pol), wh.params[1], ('not in',), 'self._clients'))
         or (len(wh.params) > 2 and any(pat.fact_matches(pat.compare_fact(tt, pol), wh.params[1], ('in',), ds) for ds in dead_sets))
         or (len(wh.params) == 2 and pol == 'F' and src(tt) == 'self._connected')))
     chk.ob('d', wh.ref, 'write() registers writer interest unless it is already registered', p is None and bool(addw), loc(wh, wh.node),
            path=pat.path_lines(p) if p else None, discr='interest-on-write')
     if is_file:
+        # a File that has been closed keeps its (closed) file object: a late write must not register it with the poller nor buffer anything for it
+        live = pat.test_edge(lambda tt, pol: (pol == 'F' and src(tt) in ('self.closed', 'self._fd.closed')) or (pol == 'T' and src(tt) in ('not self.closed', 'not self._fd.closed'))
+                             or pat.fact_matches(pat.compare_fact(tt, pol), 'self._fd', ('is', '=='), 'None'))
+        for a_ in app + addw:
+            q = pat.guarded_by(gw, a_, live)
+            chk.ob('b', wh.ref, 'write() keeps nothing for a File that has been closed (no payload buffered, no interest registered: nothing is written after the endpoint '
+                                'has closed, and nothing of it is left behind)', q is None, loc(wh, a_.ast), path=pat.path_lines(q) if q else None,
+                   discr=f'closed-file-ignored:{"append" if a_ in app else "interest"}')
         # a File may be written to before it is open (the poller is there, the descriptor is not: registering `None` for writing makes the poller drop or
         # disconnect it): the payload then waits in the buffer, and opening the file asks for the descriptor to be watched
         for a_ in addw:
